@@ -800,8 +800,13 @@ func chainCase(r *hlib.SplitMix64, gen string) row {
 	// 3. the IP-level scan loads it
 	cache := arp.NewCache()
 	if err := arp.FillCache(cache, bytes.NewReader(logged)); err != nil {
-		rw.Spec = "the output of the ARP scan is rejected by the ARP-cache loader: " + err.Error() + "; output: " + strings.TrimSpace(string(logged)) +
-			"; odd frames in the sequence: " + strings.Join(oddDesc, "; ")
+		first := rw.Spec
+		rw.Spec = "the output of the ARP scan is rejected by the ARP-cache loader: " + err.Error()
+		if first != "" {
+			rw.Spec = first + "; and " + rw.Spec
+		} else {
+			rw.Spec += "; output: " + strings.TrimSpace(string(logged))
+		}
 		rw.ErrKind = errKind(err)
 		return rw
 	}
